@@ -102,6 +102,10 @@ fn vf_re_wildcard(s: &String) -> (r: String) ensures r@ == wild_spec(s@) { unimp
 fn vf_re_anchor(s: &String) -> (r: String) ensures r@ == sep_spec(s@) { unimplemented!() }
 #[verifier::external_body]
 fn vf_re_anchor_eol(s: &String) -> (r: String) ensures r@ == eol_spec(s@) { unimplemented!() }
+// T (core::str::strip_prefix / strip_suffix on a one-byte character): the text between a leading and a trailing '/', the whole text
+// when it does not have both
+#[verifier::external_body]
+fn vf_strip_slashes(s: &str) -> (r: &str) ensures r.spec_bytes() == inner_of(s.spec_bytes()) { unimplemented!() }
 #[verifier::external_body]
 fn vf_unescape(s: &str) -> (r: String) ensures r@ == unescape_spec(s.spec_bytes()) { unimplemented!() }
 
@@ -118,18 +122,18 @@ fn vf_collect<'a, I: Iterator<Item = &'a str> + ExactSizeIterator>(i: I) -> (r: 
 pub open spec fn translated(f: Seq<char>, right: bool, left: bool) -> Seq<char> {
     (if left { seq!['^'] } else { Seq::<char>::empty() }) + eol_spec(sep_spec(wild_spec(esc_spec(f)))) + (if right { seq!['$'] } else { Seq::<char>::empty() })
 }
-// "/re/" rules: the text between the slashes, with `\/` and `\:` unescaped
+// "/re/" rules: the text between the slashes, with `\/` and `\:` unescaped.  (The parser only flags a pattern as a full regex when it has
+// both slashes; a deserialized engine may flag any text - C10 - and then the text is taken whole: no precondition on the caller.)
+pub open spec fn inner_of(b: Seq<u8>) -> Seq<u8> {
+    if b.len() >= 2 && b[0] == 47u8 && b[b.len() - 1] == 47u8 { b.subrange(1, b.len() - 1) } else { b }
+}
 pub open spec fn pattern_of(f: &str, right: bool, left: bool, complete: bool) -> Seq<char> {
-    if complete { unescape_spec(f.spec_bytes().subrange(1, f.spec_bytes().len() - 1)) } else { translated(f@, right, left) }
+    if complete { unescape_spec(inner_of(f.spec_bytes())) } else { translated(f@, right, left) }
 }
 pub open spec fn patterns_of(fs: Seq<&str>, right: bool, left: bool, complete: bool) -> Seq<Seq<char>> {
     fs.map_values(|f: &str| pattern_of(f, right, left, complete))
 }
 pub open spec fn some_empty(fs: Seq<&str>) -> bool { exists|i: int| 0 <= i < fs.len() && (#[trigger] fs[i])@.len() == 0 }
-// a `/re/` pattern is at least the two slashes (established by the parser)
-pub open spec fn complete_shape(f: &str) -> bool {
-    f.spec_bytes().len() >= 2 && f.spec_bytes()[0] == 47u8 && f.spec_bytes()[f.spec_bytes().len() - 1] == 47u8
-}
 
 // what a compiled regex is, as far as matching goes
 pub enum Shape { MatchAll, One(Seq<char>, bool, bool), Set(Seq<Seq<char>>, bool, bool), Error }
@@ -174,7 +178,6 @@ pub open spec fn compile_shape(fs: Seq<&str>, right: bool, left: bool, complete:
 //@ SPEC
     requires
         filters.obeys_prophetic_iter_laws(),
-        is_complete_regex ==> forall|i: int| 0 <= i < filters.remaining().len() ==> complete_shape(#[trigger] filters.remaining()[i]),
     ensures
         // an empty pattern (a rule that is only options or anchors) matches everything; so does a rule without patterns
         some_empty(filters.remaining()) || filters.remaining().len() == 0 ==> r is MatchAll, // OBL C02.regex.compile.match_all
@@ -234,11 +237,14 @@ pub open spec fn compile_shape(fs: Seq<&str>, right: bool, left: bool, complete:
     vf_re_anchor_eol(&repl)
 //@ ENDSUBST
 //@ SUBST R6
-    filter_str[1..filter_str.len() - 1]
+    filter_str
+                .strip_prefix('/')
+                .and_then(|inner| inner.strip_suffix('/'))
+                .unwrap_or(filter_str)
                 .replace("\\/", "/")
                 .replace("\\:", ":")
 //@ WITH
-    vf_unescape(&filter_str[1..filter_str.len() - 1])
+    vf_unescape(vf_strip_slashes(filter_str))
 //@ ENDSUBST
 //@ SUBST R6*
     format!
@@ -326,7 +332,6 @@ pub open spec fn compile_shape(fs: Seq<&str>, right: bool, left: bool, complete:
 //@ SPEC
     requires
         filters.obeys_prophetic_iter_laws(),
-        mask.has(NetworkFilterMask::IS_COMPLETE_REGEX) ==> forall|i: int| 0 <= i < filters.remaining().len() ==> complete_shape(#[trigger] filters.remaining()[i]),
     ensures
         some_empty(filters.remaining()) || filters.remaining().len() == 0 ==> r is MatchAll, // OBL C02.regex.make.match_all
         !some_empty(filters.remaining()) && filters.remaining().len() == 1 ==> (r is RegexParsingError
@@ -395,7 +400,6 @@ impl RegexManagerView {
         where FiltersIter: Iterator<Item = &'a str> + ExactSizeIterator
         requires
             filters.obeys_prophetic_iter_laws(),
-            mask.has(NetworkFilterMask::IS_COMPLETE_REGEX) ==> forall|i: int| 0 <= i < filters.remaining().len() ==> complete_shape(#[trigger] filters.remaining()[i]),
             entry_ok(*old(v), mask, filters.remaining()),
             old(v).usage_count < usize::MAX, old(self).compiled_regex_count < usize::MAX,
         ensures
@@ -422,7 +426,6 @@ impl RegexManagerView {
         where FiltersIter: Iterator<Item = &'a str> + ExactSizeIterator
         requires
             filters.obeys_prophetic_iter_laws(),
-            mask.has(NetworkFilterMask::IS_COMPLETE_REGEX) ==> forall|i: int| 0 <= i < filters.remaining().len() ==> complete_shape(#[trigger] filters.remaining()[i]),
             old(self).compiled_regex_count < usize::MAX,
         ensures r == shape_match(rule_shape(mask, filters.remaining()), pattern.spec_bytes()), // OBL C06.cache.vacant.answer
     {
